@@ -4,6 +4,8 @@ import (
 	"bytes"
 	"fmt"
 	"math/big"
+	"os"
+	"strconv"
 	"strings"
 	"testing"
 
@@ -306,9 +308,17 @@ func runC12(sc *C12Script) *sim.Outcome {
 		o.Discard = true
 		return o
 	}
-	for _, st := range sc.Steps {
+	for si, st := range sc.Steps {
 		if o.Violation != "" {
 			return o
+		}
+		if r.knownSig != "" {
+			// the library has taken a turn only the open finding explains (it answered a request the specification's
+			// checks refuse): from here on the shadow and the library disagree about the state for that reason alone
+			break
+		}
+		if os.Getenv("VERIF_DEBUG") != "" {
+			fmt.Printf("DBG step %d %+v shadow=%s reject=%q events so far %v\n", si, st, r.sh.state, r.sh.reject, m.A.SMP)
 		}
 		nEv := len(m.A.SMP)
 		nDraw := len(m.A.R.Draws)
@@ -317,6 +327,31 @@ func runC12(sc *C12Script) *sim.Outcome {
 			m.ASend([]byte("hello"))
 			m.fromR(m.R.Send([]byte("hi")))
 			r.settle()
+		case "vstartf":
+			// the user starts an authentication while the randomness source fails (once, at read +X): nothing is
+			// sent, so nothing has begun, whatever state the conversation was in
+			m.A.R.FailAt, m.A.R.FailFor, m.A.R.FailMode = m.A.R.Reads()+st.X%8, 1, st.V%2
+			out, err := m.A.C.StartAuthenticate("", r.secretV)
+			m.fromA("StartAuthenticate", nil, nil, out, err, m.A.Snap(), true)
+			m.A.R.Heal()
+			if err == nil {
+				// the fault fell behind the call: an ordinary start
+				o.Discard = true
+				return o
+			}
+			r.hits++
+			o.Class("start-failed-on-randomness")
+			if len(out) > 0 {
+				return o.Fail("C12/failed-start-sent", "StartAuthenticate failed (%v) and yet emitted %d message(s)", err, len(out))
+			}
+			if r.sh.state != "e1" {
+				// a run was in progress: the library may have given it up or kept it; the peer gives it up too
+				r.sendSMP(ref.TLVSMPAbort, "", nil, 0)
+				r.prover, r.pRole = nil, 0
+			}
+			r.sh = shadow{state: "e1", reject: "no run in progress: the start failed"}
+			r.settle()
+			r.judgeEvents(m.A.SMP[nEv:], false, "a start that failed for lack of randomness")
 		case "vstart":
 			if r.sh.state != "e1" {
 				r.hits++
@@ -804,6 +839,14 @@ func TestProp_C12_UserCalls(t *testing.T) {
 		{"vstart", "r2*", "r2", "r4"},
 		{"vstart", "r2", "r2*", "r4"},
 		{"r1", "vanswer", "r1*", "r3"},
+		// a start that fails for lack of randomness leaves nothing behind
+		{"vstartf", "r2", "r1", "vanswer", "r3"},
+		{"vstartf:1", "r1", "vanswer", "r3"},
+		{"vstartf:2", "r2", "vstart", "r2", "r4"},
+		{"vstartf:3", "vstart", "r2", "r4"},
+		{"vstartf:4", "r2", "r4", "r1", "vanswer", "r3"},
+		{"vstartf:5", "r1", "vanswer", "r3"},
+		{"r1", "vstartf", "r1", "vanswer", "r3"},
 	}
 	idx := 0
 	for _, v := range []int{3, 2} {
@@ -818,6 +861,10 @@ func TestProp_C12_UserCalls(t *testing.T) {
 					st := DStep{K: strings.TrimSuffix(k, "*"), Q: q}
 					if strings.HasSuffix(k, "*") {
 						st.F, st.V = 0, 2 // g2a / g2b := 1 without a matching proof
+					}
+					if i := strings.Index(k, ":"); i > 0 {
+						st.K = k[:i]
+						st.X, _ = strconv.Atoi(k[i+1:])
 					}
 					sc.Steps = append(sc.Steps, st)
 				}
